@@ -183,6 +183,30 @@ PROPS["C09"] = {
     "assumptions": ["'no counter update is lost' follows from race freedom (DRF-SC); the serialised simulator cannot lose an update physically", "the trace writer is the caller's and is mutex-protected"],
 }
 
+NET_NOTE = ("trusted: rapid; the in-memory transport of the harness; net/http's server, Transport and ReverseProxy run as real code with their own goroutines, which the simulator does not schedule: each exchange is one causal chain "
+            "and every fault is tied to a position in the byte stream, so the observable outcome is interleaving-independent (determinism probe re-checks this on every run); one real 25 ms timer remains (response-header timeout)")
+PROPS["C08"] = {
+    "harness": "netsim", "test": "TestC08", "quick_s": 30, "thorough_s": 600, "batch": 50, "cpu": 4, "workers": 8,
+    "rule": "one evaluation = one exchange: raw request bytes written by a simulated client (targets with escaped slashes in both hex cases, spaces, multi-byte escapes, ';', '+', '//', dot segments, ':' '@', query forms; Host with/without port and IPv6; header sets with repeated and empty end-to-end headers, "
+            "hop-by-hop headers, Connection naming ordinary and forwarding headers, upstream-supplied X-Forwarded-*/X-Real-Ip) from a peer address of every form (IPv4, IPv6, IPv6 with zone), TLS flag and host pass-through both ways, through a real net/http server and forward.New to a "
+            "scripted byte-level backend on the simulated transport; oracle = byte-level comparison of what the backend received and what the client received; non-trivial = at least two client headers; distinct = hash of the bytes at the backend and the response head at the client",
+    "technique": "deterministic simulation restricted to its transport dimension: seeded inputs and configurations observed as bytes on a simulated backend connection (peer-address forms and TLS flag that real sockets here cannot produce); this property has no schedule or fault dimension",
+    "level_text": "seeded input/configuration exploration over the simulated transport; sampled, not exhaustive",
+    "level_note": NET_NOTE + "; 'TE: trailers', upgrade requests and an empty query ('/p?') are not generated (Go's ReverseProxy treats them specially by design); a forwarding header that the client itself names in Connection may or may not arrive",
+    "assumptions": ["HTTP/1.1 client", "TLS is represented by the request's TLS field as set by a TLS-terminating listener"],
+}
+
+PROPS["C16"] = {
+    "harness": "netsim", "test": "TestC16", "quick_s": 40, "thorough_s": 900, "batch": 40, "cpu": 4, "workers": 8,
+    "rule": "one evaluation = one exchange through a real net/http server, forward.StateListener and forward.New to a scripted byte-level backend on the simulated transport: backend status 200-599, header sets, bodies 0 B-300 KiB (MiB in the thorough tier), fixed length or chunked with drawn chunk sizes; "
+            "in two thirds of the exchanges one fault: dial refused, dial timeout, close/reset with 0 bytes sent, close/reset at a drawn byte of the head, garbage head, close/reset at a drawn byte of the body stream, response-header timeout (stalled backend), client gone while the backend is silent, client gone mid-body; "
+            "oracle = outcome class per fault (exact relay, 502, 504, 502|504, 502|500, 499 recorded, strict prefix + broken connection), no hang, no handler panic reaching the server, exactly one connected and one disconnected notification; non-trivial = a fault or a non-empty body; distinct = hash of (status, size, fault, position)",
+    "technique": "deterministic simulation of the two connections of a reverse proxy: seeded backend responses with connection faults injected at drawn byte offsets of the response stream, dial faults and client departures; outcome-class and notification-pairing oracle",
+    "level_text": "seeded search over responses and fault positions; fault kinds enumerated, positions sampled; not exhaustive",
+    "level_note": NET_NOTE,
+    "assumptions": ["HTTP/1.1, one exchange per connection", "hang limit 15 s real time per exchange"],
+}
+
 PENDING = "check not built yet in this session (planned, see DESIGN.md section 4); not claimed until its harness exists"
 NOT_APPLICABLE = {pid: PENDING for pid in ["C%02d" % i for i in range(1, 21)]}
 NOT_APPLICABLE["C19"] = ("pure function of one request's RemoteAddr/Host/header to a token: no schedule, clock, fault, I/O or multi-party behaviour for a "
